@@ -20,10 +20,13 @@ Fixpoint item_of_sx (fuel : nat) (s : sx) : option item :=
               match e with
               | SL [SL k; SL v] =>
                   let? k' := omap (item_of_sx fuel') k in
-                  let? v' := omap (item_of_sx fuel') v in Some (k', v')
+                  let? v' := omap (item_of_sx fuel') v in Some [(k', v')]
+              | SL [SL k; SL v; _] =>                      (* the same entry object passed twice *)
+                  let? k' := omap (item_of_sx fuel') k in
+                  let? v' := omap (item_of_sx fuel') v in Some [(k', v'); (k', v')]
               | _ => None
               end) es in
-            Some (IMap ents)
+            Some (IMap (List.concat ents))
           else None
       | _ => None
       end
